@@ -401,7 +401,7 @@ impl Check for C06 {
         CheckInfo {
             id: "C06",
             level: "model_checking",
-            rule: "catch lists = every sequence of <= 2 catches over {on e1, on e2, catch-all} x body {none, message step, interrupt step}, placed on the failing act, on the step around it and on the outer step of a two-branch spine (one placement over all 64 lists with the others empty; all three placements over a set of five lists); error sources: client error e1 / e2 / e3 / e10 with a message, a throwing script, an unknown package; the error is raised while a second interrupt is open in the sibling branch; every order of queued tasks and client answers (A-mode exhaustive); reference: innermost list with a match wins, first match in that list, its steps run exactly once, the catcher completes and its successor runs, tasks below stay in error; no match: the spine is marked error and exactly one error event carries the original code and message".into(),
+            rule: "catch lists = every sequence of <= 2 catches over {on e1, on e2, catch-all} x body {none, message step, interrupt step}, placed on the failing act, on the step around it and on the outer step of a two-branch spine (one placement over all 64 lists with the others empty; all three placements over a set of five lists); a fourth body kind: an interrupt step whose act has a catch-all of its own and is failed by the client (a catch nested in catch steps); variants whose sibling branch is a parked else branch; error sources: client error e1 / e2 / e3 / e10 with a message, a throwing script, an unknown package; the error is raised while a second interrupt is open in the sibling branch; every order of queued tasks and client answers (A-mode exhaustive); reference: innermost list with a match wins, first match in that list, its steps run exactly once, the catcher completes and its successor runs, tasks below stay in error; no match: the spine is marked error and exactly one error event carries the original code and message".into(),
             assumptions: vec!["activities are atomic".into()],
             budget_s: tier.pick(55, 900),
             exhaustive_when_uncapped: true,
